@@ -193,3 +193,156 @@ def fr(cx):
             else:
                 cx.ok(loc, construct=f"{where}: {text}", detail=f"frees {why}", anchor=where)
     cx.ok(None, construct=f"{n} free() call(s) outside the allocator classes; built-in foreign / owned / guarded examples classified as such", detail="no region chosen by a caller is given back to the allocator", anchor="typeutils::allocate_on_buffer")
+
+
+# ------------------------------------------------------------------------------------------ PI placement independence
+"""PI -- what a writer of the object layer writes, and where inside the object, does not depend on WHERE the object
+lies (C03, C01: "wherever in that buffer it lands").
+
+The layout is relative: sizes and part positions are functions of the type and the value, rounded to slots RELATIVE to
+the object's start.  A rounding (`_to_slot_size`, `//`, `%`, `&`, `*` ...) applied to an ABSOLUTE position -- the
+`offset` parameter of a function that also takes the buffer, `self._offset`, and what is derived from them by + and -
+-- gives a quantity that changes with the placement; used as a position or length of a store it reaches past (or
+stops short of) the object's extent for placements that are not multiples of the slot size (packed placement, explicit
+offsets, any offset on a context with alignment 1 after an odd-sized allocation).
+
+Two taints over each function, flow-insensitive fixed points through local assignments:
+  A  absolute position      parameter `offset` / `_offset` of a function with a `buffer` parameter, `<x>._offset`,
+                            closed under + and - and plain copies;
+  R  rounded absolute       any expression in which an A-tainted operand meets a non-additive operator or a rounding
+                            helper, closed under every operator.
+Reported: an R-tainted argument of a storing call (`update_from_buffer / _nplike / _xbuffer / _native`, `_to_buffer`,
+`_array_to_buffer`, `_update`, `_set_offsets`).  Alignment TESTS (`offset % 8 == 0` in an assert / if) store nothing and
+are not reported.  Expected count on the pinned tree: zero; a built-in positive example is classified on every run.
+"""
+STORES = {"update_from_buffer", "update_from_nplike", "update_from_xbuffer", "update_from_native", "_to_buffer", "_array_to_buffer", "_set_offsets"}
+ROUNDERS = {"_to_slot_size", "_align", "align", "round_up", "ceil", "floor"}
+NONADD = (ast.FloorDiv, ast.Mod, ast.BitAnd, ast.BitOr, ast.BitXor, ast.RShift, ast.LShift, ast.Mult, ast.Div, ast.Pow)
+
+_PI_POSITIVE = '''
+class A:
+    @classmethod
+    def _to_buffer(cls, buffer, offset, value, info=None):
+        coffset = offset + 16
+        end = coffset + info.items * 2
+        slack = _to_slot_size(end) - end
+        if slack > 0:
+            buffer.update_from_buffer(end, b"\\x00" * slack)
+'''
+_PI_NEGATIVE = '''
+class A:
+    @classmethod
+    def _to_buffer(cls, buffer, offset, value, info=None):
+        assert offset % 8 == 0
+        size = _to_slot_size(info.items * 2)
+        buffer.update_from_buffer(offset + 16, b"\\x00" * size)
+'''
+
+
+def _pi_function(fn):
+    """-> list of (call node, argument text, why) for R-tainted arguments of storing calls"""
+    params = [a.arg for a in fn.args.args + fn.args.kwonlyargs]
+    A = set()
+    if "buffer" in params or "_buffer" in params:
+        A |= {p for p in params if p in ("offset", "_offset")}
+    R = {}
+
+    def is_A(e):
+        if isinstance(e, ast.Name):
+            return e.id in A
+        if isinstance(e, ast.Attribute):
+            return e.attr == "_offset"
+        if isinstance(e, ast.BinOp) and isinstance(e.op, (ast.Add, ast.Sub)):
+            return is_A(e.left) or is_A(e.right)
+        if isinstance(e, ast.IfExp):
+            return is_A(e.body) or is_A(e.orelse)
+        return False
+
+    def why_R(e):
+        """None or a description of the rounding of an absolute position inside e"""
+        if isinstance(e, ast.Name):
+            return R.get(e.id)
+        if isinstance(e, ast.BinOp):
+            if isinstance(e.op, NONADD) and (is_A(e.left) or is_A(e.right)):
+                return f"`{norm(e)[:60]}`"
+            return why_R(e.left) or why_R(e.right)
+        if isinstance(e, ast.UnaryOp):
+            return why_R(e.operand)
+        if isinstance(e, ast.Call):
+            nm = _callee(e)
+            if nm in ROUNDERS and any(is_A(a) for a in e.args):
+                return f"`{norm(e)[:60]}`"
+            for a in list(e.args) + [k.value for k in e.keywords]:
+                w = why_R(a)
+                if w and nm in ("int", "max", "min", "abs", "bytes", "bytearray", "range", "len") | ROUNDERS:
+                    return w
+            return None
+        if isinstance(e, ast.IfExp):
+            return why_R(e.body) or why_R(e.orelse)
+        if isinstance(e, (ast.Tuple, ast.List)):
+            for x in e.elts:
+                w = why_R(x)
+                if w:
+                    return w
+        return None
+
+    changed = True
+    while changed:
+        changed = False
+        for n in own_nodes(fn):
+            if isinstance(n, ast.Assign) and len(n.targets) == 1 and isinstance(n.targets[0], ast.Name):
+                t = n.targets[0].id
+                if t not in A and is_A(n.value) and not why_R(n.value):
+                    A.add(t)
+                    changed = True
+                w = why_R(n.value)
+                if w and t not in R:
+                    R[t] = w
+                    changed = True
+            elif isinstance(n, ast.AugAssign) and isinstance(n.target, ast.Name):
+                t = n.target.id
+                if isinstance(n.op, (ast.Add, ast.Sub)) and t not in A and is_A(n.value):
+                    A.add(t)
+                    changed = True
+                w = why_R(n.value)
+                if w and t not in R:
+                    R[t] = w
+                    changed = True
+    out = []
+    for n in own_nodes(fn):
+        if isinstance(n, ast.Call) and _callee(n) in STORES:
+            for a in list(n.args) + [k.value for k in n.keywords]:
+                w = why_R(a)
+                if w:
+                    out.append((n, norm(a)[:60], w))
+                    break
+    return out, bool(A)
+
+
+@rule("PI", ["C03", "C01"], "writers of the object layer round sizes, never absolute positions: no store whose position or length is a rounding of the object's absolute offset (placement independence of the layout)")
+def pi(cx):
+    m = cx.m
+    for src, want in ((_PI_POSITIVE, 1), (_PI_NEGATIVE, 0)):
+        tree = ast.parse(src)
+        got = sum(len(_pi_function(fn)[0]) for fn in ast.walk(tree) if isinstance(fn, ast.FunctionDef))
+        cx.need(got == want, f"PI: the built-in {'positive' if want else 'negative'} example gives {got} report(s)")
+    nfun = nbad = 0
+    for name in ("array", "struct", "string", "ref", "scalar", "hybrid_class", "typeutils"):
+        mi = m.mod(name)
+        tree = ast.parse(mi.source)
+        _parents(tree)
+        for fn in ast.walk(tree):
+            if not isinstance(fn, ast.FunctionDef):
+                continue
+            reports, has_abs = _pi_function(fn)
+            if not has_abs and not reports:
+                continue
+            nfun += 1
+            cls = _enclosing(fn, ast.ClassDef)
+            where = f"{name}::{(cls.name + '.') if cls is not None else ''}{fn.name}"
+            for call, arg, why in reports:
+                nbad += 1
+                cx.bad(f"xobjects/{name}.py:{call.lineno}", construct=f"{where}: {norm(call)[:110]}", detail=f"the argument `{arg}` of a store derives from {why}, a rounding of an ABSOLUTE position: for an object that does not start on a multiple of the rounding unit (packed / explicit offsets, alignment 1 after an odd-sized allocation) the store reaches beyond what was planned relative to the object's start -- into the slack or the first bytes of whatever lies behind it", anchor=where)
+    cx.need(nfun >= 10, f"PI: only {nfun} functions of the object layer take an absolute position")
+    if not nbad:
+        cx.ok(None, construct=f"{nfun} functions of the object layer that take an absolute position (buffer + offset, self._offset)", detail="no store whose position or length is a rounding of an absolute position", anchor="typeutils::_to_slot_size")
